@@ -23,6 +23,15 @@ CHECKS['C03'] = dict(
          'mathematical modulo on one wrap either side. For all sizes and states; FIFO/lossless over histories is not decided.',
     note='Trusted: clang lowering, irdump, checks/absint.py + lin.py, the contracts in checks/c03.py. Assumes size <= 2^30, '
          'bulk moves with bias <= size, non-aliasing parameters.')
+CHECKS['C14'] = dict(
+    category='other', design_ref='DESIGN.md 5/C14',
+    technique='abstract interpretation over LLVM IR of every instantiated member (class invariant m_size <= N, slot accesses inside the inline array)',
+    text='For static_vector<int,4>, static_vector<VTr,4> (probe element type with external special members), static_string<4> and '
+         'their std_portable twins: every constructor and method re-establishes m_size <= N, every element construct/destroy/assign '
+         'and every byte copy lies inside the inline storage, push/emplace refuse when full, resize clamps - for all states and '
+         'arguments. Content equality and exactly-once destruction are not decided by this check.',
+    note='Trusted: clang lowering, irdump, absint/lin, the argument contracts in checks/c14.py (iterators of erase point into the '
+         'container, range arguments delimit one array). N is instantiated at 4.')
 NA_REASON = 'check not built yet (work in progress; see DESIGN.md section 9)'
 
 m = {"version": 1,
